@@ -9,6 +9,15 @@ CHECKS = {
  'C02': dict(text='Generated-program search over the aggregation profile (predicate-level and expression-level aggregation, distinct, negation, clashing local names, null inputs, empty groups, ties); every intensional predicate is run on SQLite and compared with the reference evaluator; a mismatch is attributed to a recorded engine deviation only if the reference reproduces the actual rows under exactly that deviation.',
              note='Trusted: CPython, sqlite3, Hypothesis, reference evaluator lv/ref.py. Membership tests among nulls and comparisons of composite values are not asserted (counted as inconclusive).',
              technique='property-based differential testing against a reference evaluator (Hypothesis)', ref='2/C02'),
+ 'C07': dict(text='Metamorphic generated-program search: statement/fact/conjunct/disjunct permutations, per-rule variable renamings and order-changing predicate renamings of generated programs must leave every predicate equal (as a multiset; List as multiset, Set as set, ties by validity) to the reference value of the original program.',
+             note='Trusted: CPython, sqlite3, Hypothesis, reference evaluator (arbitrates which side is wrong). Recursive and functor programs get their order/naming variants in C03/C04.',
+             technique='metamorphic property-based testing + reference evaluator (Hypothesis)', ref='2/C07'),
+ 'C08': dict(text='Generated-program search over plan annotations: every concrete predicate gets each of {none,@NoInject,@With,@NoWith,@NoInject+@NoWith,@NoInject+@With,@Ground} in fixed and drawn assignments; every predicate under every assignment equals the reference evaluator, where injectible calls are capture-avoiding body substitution; SQL text difference shows the plan changed.',
+             note='Trusted: CPython, sqlite3, Hypothesis, reference evaluator. @Ground on the in-memory logica_test database.',
+             technique='metamorphic/differential property-based testing (Hypothesis)', ref='2/C08'),
+ 'C11': dict(text='Generated programs are printed in two spellings differing in one documented sugar class (S1-S10) at one or all occurrences; both spellings, compiled and run on SQLite, must equal the reference evaluator value of the AST.',
+             note='Trusted: CPython, sqlite3, Hypothesis, reference evaluator. S8 is not asserted when a list element contains a functional call to a table (two documented sugars interact).',
+             technique='metamorphic property-based testing over spelling variants (Hypothesis)', ref='2/C11'),
 }
 NOT_YET = 'check not built yet in this round (planned in DESIGN.md)'
 m = {
